@@ -81,6 +81,7 @@ static struct aws_task_scheduler *S;
 static struct aws_task *T[MAXT];
 static int g_cleaned;
 static uint64_t g_base_blocks;
+static int g_no_structure;
 
 /* ---- reference / monitor ---------------------------------------------------------------------------------------- */
 struct rtask {
@@ -541,7 +542,7 @@ static void m_apply(int op) {
     }
     if (!esx_failed && !g_cleaned) {
         ESX_CHECK(cx.cancel_target == -1 && cx.cancel_depth == 0, "harness", "monitor context not unwound");
-        check_structure(nm);
+        if (!g_no_structure) check_structure(nm);
         if (!esx_failed) check_has_tasks(nm);
     }
 }
@@ -692,6 +693,7 @@ static void set_cfg(int nt, const char *spec) {
 
 static int g_rc;
 static int g_nconfigs;
+static int g_workers_cli;
 static void run_cfg(int nt, const char *spec) {
     set_cfg(nt, spec);
     if (v_replay_token) {
@@ -700,6 +702,9 @@ static void run_cfg(int nt, const char *spec) {
     }
     ++g_nconfigs;
     model.max_depth = ESX_MAX_DEPTH;
+    /* the 3-task black-box models have ~1.3e3 states and BFS levels of a few hundred: forking 16 ASan workers per level
+     * costs more than it saves, 4 are enough (an explicit --workers wins) */
+    if (!g_workers_cli) v_nworkers = (nt == 3 && !INJ) ? 4 : 16;
     esx_run(&model);
 }
 
@@ -733,6 +738,11 @@ static void run_family(int nt, int variant) {
 
 int main(int argc, char **argv) {
     v_init(argc, argv);
+    for (int i = 1; i < argc; ++i)
+        if (!strcmp(argv[i], "--workers")) g_workers_cli = 1;
+    /* mutation experiments only: C07_NO_STRUCTURE=1 switches the early white-box "structure" clause off, to show that the
+     * property-level clauses catch the same defects on their own (never set by ./check) */
+    g_no_structure = getenv("C07_NO_STRUCTURE") != NULL;
     aws_common_library_init(aws_default_allocator());
     for (int k = 0; k < EV_N; ++k) ev_idx[k] = v_counter(EV_NAME[k]);
 
@@ -770,7 +780,18 @@ int main(int argc, char **argv) {
         for (size_t i = 1; i < sizeof(picked) / sizeof(picked[0]); ++i) run_cfg(3, picked[i]);
         run_family(3, 0); /* all 5^3 assignments, 3 tasks */
         run_family(3, 1); /* the same with the other target / other times */
-        run_family(4, 0); /* all 5^3 assignments on T0..T2 with a fourth, passive task */
+        /* four tasks (T3 passive: only the driver hands it over): FIFO of 4, heaps of 4 with inner-slot removals */
+        char spec4[64];
+        for (size_t i = 0; i < sizeof(single) / sizeof(single[0]); ++i) {
+            snprintf(spec4, sizeof(spec4), "%s_n", single[i]);
+            run_cfg(4, spec4);
+        }
+        for (size_t i = 0; i < sizeof(picked) / sizeof(picked[0]); ++i) {
+            snprintf(spec4, sizeof(spec4), "%s_n", picked[i]);
+            run_cfg(4, spec4);
+        }
+        run_cfg(4, "C3_Rn_N0_C1");   /* T3 active too: cancel / self-reschedule / schedule / cancel */
+        run_cfg(4, "F3t4_C3_Rt0_N2");
     }
     if (!v_replay_token) {
         V_COUNT("configurations", g_nconfigs);
